@@ -392,6 +392,7 @@ func (t *tcpRun) execSend(op *ttree, name string) string {
 	x := []string{}
 	cn := t.cur()
 	var respMode, fault string
+	splitK := 0
 	var call func() error
 	var chunkOf func() string
 	switch name {
@@ -401,6 +402,10 @@ func (t *tcpRun) execSend(op *ttree, name string) string {
 		call = func() error { return t.c.SendRaw(b) }
 	case "SND":
 		respMode, fault = op.kids[1].atom, op.kids[2].atom
+		if i := strings.IndexByte(respMode, '@'); i >= 0 {
+			splitK = int(atoi64(respMode[i+1:]))
+			respMode = respMode[:i]
+		}
 		if op.kids[0].node && op.kids[0].name == "RAWM" {
 			rm := protocol.RawMessage(unhx(op.kids[0].kids[0].atom))
 			call = func() error { return t.c.Send(rm) }
@@ -464,9 +469,13 @@ func (t *tcpRun) execSend(op *ttree, name string) string {
 			call = func() error { return t.c.SendCompressedFromBytes(tag, b) }
 		}
 	}
-	var resp []byte
+	var resp, pre []byte
 	if cn != nil && !cn.closed {
-		cn.readQ, cn.readEnd, cn.fault, cn.written, cn.deadline = nil, "eof", fault, nil, false
+		// bytes the client left unread stay in the connection, in front of whatever the peer sends next
+		for _, f := range cn.readQ {
+			pre = append(pre, f...)
+		}
+		cn.readEnd, cn.fault, cn.written, cn.deadline = "eof", fault, nil, false
 		if respMode == "sil" {
 			cn.readEnd = "sil"
 		}
@@ -483,6 +492,9 @@ func (t *tcpRun) execSend(op *ttree, name string) string {
 			k := 0
 			if strings.HasPrefix(respMode, "split") {
 				k = int(atoi64(respMode[5:]))
+			}
+			if splitK > 0 {
+				k = splitK
 			}
 			switch {
 			case respMode == "match":
@@ -512,9 +524,15 @@ func (t *tcpRun) execSend(op *ttree, name string) string {
 				resp = resp[:len(resp)-2]
 			case respMode == "trailing":
 				resp = append(ack(ch), 0xc0, 0x01)
+			case respMode == "dupack": // the matching id first, another one after it: the last entry of a map counts
+				resp = append(append([]byte{0x82}, ack(ch)[1:]...), ack([]byte("another-chunk-id"))[1:]...)
+			case respMode == "dupack2": // the other id first, the matching one last
+				resp = append(append([]byte{0x82}, ack([]byte("another-chunk-id"))[1:]...), ack(ch)[1:]...)
+			case respMode == "extralong": // a conforming ack with further entries, longer than one fragment
+				resp = append(append([]byte{0x83}, ack(ch)[1:]...), 0xa1, 'x', 0x92, 0x01, 0x02, 0xa4, 'n', 'o', 't', 'e', 0xa5, 'h', 'e', 'l', 'l', 'o')
 			}
 			if resp != nil {
-				c.readQ = splitAt(resp, k)
+				c.readQ = append(c.readQ, splitAt(resp, k)...)
 			}
 		}
 	}
@@ -527,7 +545,7 @@ func (t *tcpRun) execSend(op *ttree, name string) string {
 	if chunkOf != nil {
 		x = append(x, "chunk", hx([]byte(chunkOf())))
 	}
-	x = append(x, "resp", hx(resp), "t0", fmt.Sprint(t0.Unix()), "t0n", fmt.Sprint(t0.UnixNano()), "t1n", fmt.Sprint(t1.UnixNano()))
+	x = append(x, "resp", hx(resp), "pre", hx(pre), "t0", fmt.Sprint(t0.Unix()), "t0n", fmt.Sprint(t0.UnixNano()), "t1n", fmt.Sprint(t1.UnixNano()))
 	if name == "HLP" && cn != nil && strings.Contains(op.kids[0].atom, "Compressed") {
 		// decompress what went out so that the driver can judge the payload
 		if tr, n, e := mpParse(cn.written, 0); e == nil && n == len(cn.written) && tr.K == KArr && len(tr.A) >= 2 {
